@@ -1,5 +1,6 @@
 import Zc.Model.Wire.Encode
 import Zc.Model.Wire.Strict
+import Zc.Model.Wire.Send
 import Zc.Model.NameText
 namespace Zc.Driver.C01
 open Zc Zc.Wire Zc.Wire.Encode
@@ -27,9 +28,18 @@ def onwire (toks : List String) : String :=
     w.toLine
   | none => "bad-op"
 
+/-- `sendlens <len> <len> ...` (or `-` for none) → how many of the datagrams leave `Zeroconf.async_send` -/
+def sendlens (toks : List String) : String :=
+  match toks with
+  | ["-"] => "0"
+  | _ => match toks.mapM String.toNat? with
+    | some ls => toString (Zc.Wire.Send.sentCount ls)
+    | none => "bad-op"
+
 def dispatch (cmd : String) (rest : List String) : Option String :=
   match cmd with
   | "enc" => some (enc rest)
+  | "sendlens" => some (sendlens rest)
   | "onwire" => some (onwire rest)
   | _ => none
 
